@@ -4,7 +4,7 @@
 From Coq Require Import List ZArith NArith Lia Bool.
 From DepsDev Require Import Lib.Base Lib.Order Semver.Version Semver.Pep440 Semver.Pep440Parse
   Spec.Pep440Spec Semver.Pep440Abs Semver.Pep440_proofs Semver.Pep440Parse_proofs Semver.Pep440C02_proofs
-  Semver.Pep440Link_proofs Semver.Pep440Print_proofs Gen.SemverTables.
+  Semver.Pep440Scan_proofs Semver.Pep440Print_proofs Gen.SemverTables.
 Import ListNotations.
 Local Open Scope Z_scope.
 
